@@ -647,3 +647,16 @@ impl<T> DataReaderEntity<T> {
         )
     }
 }
+
+#[cfg(dust_dds_verif)]
+impl InstanceState {
+    /// Verification hook: (view state, instance state, disposed and no-writers generation counts).
+    pub fn verif_snapshot(&self) -> (ViewStateKind, InstanceStateKind, i32, i32) {
+        (
+            self.view_state,
+            self.instance_state,
+            self.most_recent_disposed_generation_count,
+            self.most_recent_no_writers_generation_count,
+        )
+    }
+}
